@@ -43,9 +43,11 @@ def real_app(backend: str, app_id: str | None = None, db_path: str | None = None
             shutil.rmtree(tmp, ignore_errors=True)
 
 
-def runner_ctx(runner_id):
+def runner_ctx(runner_id, parent_id=None):
+    """A runner context; with parent_id it is a worker context nested under a parent runner (its root_runner_id differs)."""
     from pynenc.runner.runner_context import RunnerContext
-    return RunnerContext(runner_cls="VerifRunner", runner_id=runner_id)
+    parent = RunnerContext(runner_cls="VerifParentRunner", runner_id=parent_id) if parent_id else None
+    return RunnerContext(runner_cls="VerifRunner", runner_id=runner_id, parent_ctx=parent)
 
 
 def force_status(app, inv_id: str, status, owner, ts=None):
